@@ -157,19 +157,52 @@ def _run_main(ctx):
         pos = rng.choice(["first", "last", "only", "middle"])
         case = {"op": "nested_in_from_list", "shape": sh, "position": pos}
         ctx.case(case); ctx.count("nested_in_from_list")
+        pin, pout = rng.choice([("input", "output"), ("input", "output"), ("in", "o"), ("x", "output")])
+        case["ports"] = [pin, pout]
         try:
-            inner = nir.NIRGraph.from_list(mk(), mk()) if rng.random() < 0.6 else nir.NIRGraph(
-                nodes={"input": nir.Input(np.array(sh)), "s": mk(), "output": nir.Output(np.array(sh))},
-                edges=[("input", "s"), ("s", "output")])
+            inner = nir.NIRGraph.from_list(mk(), mk()) if (pin, pout) == ("input", "output") and rng.random() < 0.6 else nir.NIRGraph(
+                nodes={pin: nir.Input(np.array(sh)), "s": mk(), pout: nir.Output(np.array(sh))},
+                edges=[(pin, "s"), ("s", pout)])
+        except Exception:
+            ctx.count("construct_rejected"); continue
+        outer = None
+        try:
             seq = {"first": [inner, mk()], "last": [mk(), inner], "only": [inner], "middle": [mk(), inner, mk()]}[pos]
             outer = nir.NIRGraph.from_list(*seq)
         except Exception as e:  # noqa
-            ctx.violate(case, "from_list raised on a sequence holding a graph", {"site": "from_list", "what": "raised"},
-                        observed=f"{type(e).__name__}: {e}"); continue
-        d = mirror_defects(outer) + [("inner",) + x for x in mirror_defects(inner)]
+            if (pin, pout) == ("input", "output"):
+                ctx.violate(case, "from_list raised on a sequence holding a graph", {"site": "from_list", "what": "raised"},
+                            observed=f"{type(e).__name__}: {e}"); continue
+            ctx.count("from_list_refused_nonstandard_ports")     # (whatever from_list makes of such ports, the inner graph is untouched)
+        d = (mirror_defects(outer) if outer is not None else []) + [("inner",) + x for x in mirror_defects(inner)]
         if d:
             ctx.violate(case, "graph-level interface does not mirror the Input/Output children",
                         {"site": "NIRGraph", "after": "from_list", "attr": d[0][-1], "family": "nested-in-from_list"},
+                        observed=[list(x) for x in d[:4]])
+    # from_list over a chain whose last node leaves its shape to inference (pooling, Flatten(None)) or whose first node
+    # is typed: right after from_list - before any inference - the interface mirrors the automatic ports as they are
+    for _ in range(ctx.n(30, 150)):
+        c, n0 = rng.randrange(1, 3), rng.randrange(5, 9)
+        first = rng.choice([lambda: nir.Conv2d((n0, n0), np.zeros((2, c, 3, 3)), 1, 0, 1, 1, np.zeros(2)),
+                            lambda: nir.Linear(np.zeros((3, 4))), lambda: nir.Scale(np.ones((c, n0, n0)))])()
+        last = rng.choice([lambda: nir.SumPool2d(2, 2, 0), lambda: nir.AvgPool2d(2, 1, 0), lambda: nir.Flatten(None, 0, -1),
+                           lambda: nir.Conv2d(None, np.zeros((2, 2, 1, 1)), 1, 0, 1, 1, np.zeros(2))])()
+        case = {"op": "from_list_untyped_tail", "first": type(first).__name__, "last": type(last).__name__}
+        ctx.case(case); ctx.count("from_list_untyped_tail")
+        try:
+            g = nir.NIRGraph.from_list(first, last)
+        except Exception:
+            ctx.count("construct_rejected"); continue
+        d = mirror_defects(g)
+        if not d and rng.random() < 0.5:
+            try:
+                outer = nir.NIRGraph.from_list(nir.Scale(np.ones(np.shape(first.weight)[1:] if hasattr(first, "weight") else (c, n0, n0))), g)
+                d = mirror_defects(outer)
+            except Exception:
+                pass
+        if d:
+            ctx.violate(case, "graph-level interface does not mirror the Input/Output children",
+                        {"site": "NIRGraph", "after": "from_list", "attr": d[0][-1], "family": "untyped-tail"},
                         observed=[list(x) for x in d[:4]])
     ctx.compare("graphs", cases, obs, reqs)
 
